@@ -94,12 +94,16 @@ Proof.
   rewrite E, k_all_some. reflexivity.
 Qed.
 
-(* a boolean mask of the right length is the selection the cache model (select_mask) uses; any other length is an
-   IndexError, never a silently truncated selection *)
+(* a boolean mask of the right length is the selection the cache model (select_mask) uses; an EMPTY mask selects
+   nothing (numpy special case); any other length is an IndexError, never a silently truncated selection *)
 Lemma keep_mask_spec : forall A (m : list bool) (l : list A),
   apply_keep (KpMask m) l =
-  if Nat.eqb (List.length m) (List.length l) then KrVals (select_mask m l) else KrIndexErr.
-Proof. reflexivity. Qed.
+  if Nat.eqb (List.length m) (List.length l) then KrVals (select_mask m l)
+  else match m with [] => KrVals [] | _ => KrIndexErr end.
+Proof.
+  intros A m l. unfold apply_keep. destruct (Nat.eqb (List.length m) (List.length l)); [reflexivity|].
+  destruct m; reflexivity.
+Qed.
 
 (* ---------------------------------------------------------------- integer indices *)
 Lemma k_wrap_spec : forall n i p, k_wrap n i = Some p <->
